@@ -24,9 +24,23 @@ const Rule = "case = (grammar, one transformation): the grammar description line
 	"A, A₁, A₂, A′, A₁₂, aₙ … and a body of 3-5 symbols for one of them; where the result grammar depends on Go's iteration order — " +
 	"two heads / terminals that draw from overlapping lists of fresh names — sentences are compared instead of grammars) " +
 	"+ bodies of 99-104 symbols (BIN's suffix limit) " +
+	"+ names as a dimension (gx.NameSchemes: concatenations, words, non-terminals named like rendered terminals, reserved suffixes, the empty " +
+	"name / ε / $ / blanks / the protocol's own markers, upper-case terminals; words are EncName-escaped names, decoded by both sides), two " +
+	"alternatives of one head that String() renders alike, a terminal that only a like-rendered non-terminal keeps in use; where names " +
+	"contain blanks or quotes cmpProduction ties make the result grammars of EliminateLeftRecursion / LeftFactor / BIN depend on hash " +
+	"iteration, so sentences are compared there " +
+	"+ threshold sweeps (harness/c08/sizes.go): ONE dimension at 63, 64, 65, 66, 70 (thorough also 2, 127-134, 255-262; 1023-1025 on the " +
+	"implementation and the Go oracle only — hx.Case.NoModel, counted as oracle_only_cases, as are unit chains from 127 up, where the " +
+	"Model's closure is quartic) with everything else small: length of a body with 1-3 nullable symbols at index 0 / t-1 / t / t+1 / last, " +
+	"number of non-terminals (a chain, with a left-recursive / unit-cyclic / common-prefix cluster late or early in OrderNonTerminals' order), " +
+	"of terminals = alternatives = productions, of alternatives in one prefix group, of members of a unit closure, of nullable and of " +
+	"unreachable symbols; for grammars whose shortest sentence is longer than the default bound the oracle compares sentences up to that " +
+	"length + 3 (when there are at most 300) " +
 	"+ component history (harness/c08/history.go): a pool of live *grammar.CFG objects kept and reused from op to op — `apply i T j` " +
 	"(the seven transformations, START / TERM / BIN, Clone; the result object is the operand of later ops), edits through " +
-	"g.Productions.Add/Remove, g.NonTerminals.Add, g.Terminals.Add, NullableNonTerminals, ComputeFIRST+ComputeFOLLOW, Equal, dumps and " +
+	"g.Productions.Add/Remove, g.NonTerminals.Add, g.Terminals.Add, NullableNonTerminals, ComputeFIRST+ComputeFOLLOW, Equal (also of an object with " +
+	"itself), answers the caller scribbles on (the set NullableNonTerminals returns, the slice OrderTerminals returns, the slices handed to NewCFG), " +
+	"two iter.Pull iterators over one object advanced alternately with one abandoned half-way and an iteration nested in itself, dumps and " +
 	"bounded languages; the Model side is the pure Model applied to values (Model/C08Hist.lean); oracle: L_k(result) = L_k(operand as it " +
 	"is at the time of the call), every live object other than the one an op writes renders exactly as recorded (deep rendering after " +
 	"every op: no transformation touches its receiver, no edit of a result reaches its operand or vice versa), edits are exact, nullable " +
@@ -627,7 +641,26 @@ func Main(run *hx.Run) {
 			}
 		}
 	}
+	{
+		// names as a dimension: concatenations, words, names like rendered terminals, reserved suffixes, the empty name / ε / $ /
+		// blanks / the protocol's own markers, upper-case terminals; two alternatives rendered alike; a terminal "kept in use" only by
+		// a like-rendered non-terminal
+		NamedGrammars(run.R.Fork("names"), run.Scale(5), run.Scale(10), func(mix string, g gx.G) {
+			comps, cases := SuffixedCases(g, mix, func(g gx.G, mix, op string) hx.Case { return caseFor(g, mix, op, 0) }, langOnlyCase)
+			for i := range cases {
+				lim.Do(run, comps[i], cases[i], Exec)
+			}
+		})
+	}
 	histories(run, &lim)
+	for _, sc := range SizeCases(run.Thorough()) {
+		// threshold sweeps: one dimension at 63 / 64 / 65 (thorough: up to 257), everything else small
+		for _, op := range sc.Ops {
+			c := caseFor(sc.G, sc.Mix, op, 0)
+			c.NoModel = sc.NoModel08
+			lim.Do(run, op, c, Exec)
+		}
+	}
 	{
 		// bodies around the limit of BIN's 99 numeric suffixes (n − 2 fresh names for a body of n symbols)
 		for n := 99; n <= 104; n++ {
